@@ -52,3 +52,4 @@ for seed in seeds:
         cur["case"] = (seed, i)
         scen.run_real(S.gen_full({"seed": seed, "i": i}), timeout_s=300, collect_ops=False)
 for k, v in sorted(hits.items()): print(v, k, ex[k])
+print('runs', len(seeds) * n, 'exceedances', sum(hits.values()), 'unmatched', sum(v for k, v in hits.items() if k[3] == ('UNMATCHED',)))
